@@ -177,7 +177,7 @@ func sortedPattern(site *mapRangeSite) (bool, string) {
 		for _, ins := range b.Instrs {
 			switch i := ins.(type) {
 			case *ssa.Call:
-				if calleeName(i) == "sort.Strings" {
+				if isStringSort(i) {
 					sorted = true
 					return true
 				}
@@ -364,4 +364,23 @@ func (w *World) mapRanges(opts *RunOpts, ex *Extra) {
 	}
 	sort.Strings(other)
 	ex.Coverage["other_nondeterminism_sources_scan"] = other
+}
+
+// isStringSort recognises the calls that put a []string into its one total
+// order: sort.Strings, slices.Sort, sort.Sort/Stable of a sort.StringSlice.
+// (sort.Slice with a hand-written comparator is NOT accepted: the comparator
+// need not be a total order, and then the result depends on the input order.)
+func isStringSort(c *ssa.Call) bool {
+	n := calleeName(c)
+	switch {
+	case n == "sort.Strings", strings.HasPrefix(n, "slices.Sort[") || n == "slices.Sort":
+		return true
+	case n == "sort.Sort" || n == "sort.Stable":
+		if len(c.Call.Args) == 1 {
+			if mi, ok := c.Call.Args[0].(*ssa.MakeInterface); ok {
+				return strings.HasSuffix(mi.X.Type().String(), "sort.StringSlice")
+			}
+		}
+	}
+	return false
 }
